@@ -139,7 +139,7 @@ func c10Staging(c *Ctx) {
 	n := 0
 	for _, rs := range renameSites(c.P) {
 		nm := fnName(rs.Fn)
-		if nm != "(*ls.Replica).Restore" && nm != "(*ls.Replica).RestoreV3" && nm != "ls.WriteTXIDFile" {
+		if rs.Delegated || (nm != "(*ls.Replica).Restore" && nm != "(*ls.Replica).RestoreV3" && nm != "ls.WriteTXIDFile") {
 			continue
 		}
 		n++
@@ -266,10 +266,11 @@ func c10IntegrityCleanup(c *Ctx, name string) {
 func c10Sinks(c *Ctx) {
 	const rule = "R5-verification-sinks"
 	if fn := c.fnOpt("(*ls.Replica).Restore"); fn != nil {
-		dd := callsTo(fn, nameIs("(*ltx.Decoder).DecodeDatabaseTo"))
+		dd := callSitesV(fn, nameIs("(*ltx.Decoder).DecodeDatabaseTo"))
 		c.floor(rule, len(dd), 1, "DecodeDatabaseTo in Restore")
-		for _, d := range dd {
-			okF, why := failStopOK(fn, d)
+		for _, vd := range dd {
+			d := vd.Call()
+			okF, why := failStopV(vd)
 			c.check(okF, rule, fnName(fn)+": DecodeDatabaseTo failure fails the restore", c.pos(d), "fail-stop", why)
 			// decodes from the compactor pipe into the staged file
 			c.check(vCallResult(nameIs("os.Create"))(d.Common().Args[1]), rule, fnName(fn)+": database decoded into the staged file", c.pos(d), "os.Create(tmp)", "decoded into something else")
